@@ -130,6 +130,16 @@ bool apply_edit(std::string& d, const Step& st, bool& validity_preserving)
     d.replace(a->vb, a->ve - a->vb, v); return true;
   }
   if (op == "vc") { if (S.tags.empty()) return false; const xmlscan::Tag& T = S.tags[(size_t)st.arg(0) % S.tags.size()]; if (T.name == "gama-local" && T.end) return false; d.insert(T.e, "<!-- c " + std::to_string(st.arg(1)) + " -->"); return true; }
+  if (op == "vu") {
+    // non-ASCII text in the <description> (any UTF-8 text is valid there): characters from every corner of the 8-bit
+    // code pages the output encodings know and do not know - Latin-1 punctuation below U+00A4, Latin-2 letters,
+    // Cyrillic, a three-byte and a four-byte character
+    static const char* U[] = {"\xc2\xa3", "\xc2\xa0", "\xc2\x81", "\xc2\xa1", "\xc5\xbd", "\xc4\x8d", "\xd0\x96", "\xe2\x82\xac", "\xf0\x9f\x93\x90", "\xc3\xa9\xc2\xa2"};
+    for (size_t t = 0; t < S.tags.size(); t++) if (S.tags[t].start && !S.tags[t].empty && S.tags[t].name == "description") {
+      d.insert(S.tags[t].e, std::string(" ") + U[st.arg(0) % 10] + " " + U[st.arg(1) % 10] + " "); return true;
+    }
+    return false;
+  }
   if (op == "vl") {
     // a LONG LINE: 20-60 kB of blanks inside a start tag (between the last attribute and '>') and every line break
     // outside <description> turned into a blank, so that most of the document is one line of tens of kilobytes with
@@ -719,6 +729,13 @@ Plan IoEngine::generate(uint64_t seed, uint64_t index, const std::string& tier)
     static const char* V[] = {"vq", "vs", "vr", "vf", "vc", "vw"};
     for (int i = 0; i < ne; i++) step(V[g.below(6)], {(long long)g.below(5000), (long long)g.below(50), (long long)g.below(50)});
     if (g.chance(1, 6)) step("vl", {(long long)g.below(5000), (long long)g.below(40000)});
+    if (target == "local" && g.chance(1, 6)) {
+      // non-ASCII description, printed through one of the output encodings in one of the languages
+      step("vu", {(long long)g.below(10), (long long)g.below(10)});
+      static const char* ENC2[] = {"utf-8", "iso-8859-2", "iso-8859-2-flat", "cp-1250", "cp-1251"};
+      static const char* LANG2[] = {"en", "ca", "cz", "du", "es", "fi", "fr", "hu", "ru", "ua", "zh"};
+      p.set("args", std::string("- --encoding ") + ENC2[g.below(5)] + " --language " + LANG2[g.below(11)] + (g.chance(1, 2) ? " --text -" : " --text @F0 --html @F1")); p.seti("xmlfile", -1); p.seti("pipe", 0);
+    }
     if (g.chance(1, 3)) p.seti("same_as_base", 1);
   } else if (cls < 5 && (target == "local" || target == "gkf")) {
     // networks that need the approximate-coordinates stage: one to three points without (some of) their coordinates,
